@@ -67,7 +67,10 @@ def want_set(triples):
 BADTEXT = ["# c\n[broken\nK=1\n", "# c\n[S] trailing\nK=1\n", "# c\n[]\nK=1\n"]      # missing bracket / text after section / empty name: all on line 2
 
 
-def mk_tree(x, R, delim="=", badkind=0):
+CFGNAMES = ["cfg", "org.example.app", "cfg", "a.b", "x-1_y", "cfg"]      # the configuration's name: also names with further dots
+
+
+def mk_tree(x, R, delim="=", badkind=0, name="cfg"):
     """create the tree on disk under R (ECONFTOOL_ROOT)"""
     shutil.rmtree(R, ignore_errors=True)
     layers = [R + "/usr/etc", R + "/etc"]
@@ -75,9 +78,9 @@ def mk_tree(x, R, delim="=", badkind=0):
     bad = tuple(x["bad"][0]) if x["bad"] else None
     for i, kind in enumerate(x["main"], start=1):
         d = layers[i - 1]
-        os.makedirs(d + "/cfg.conf.d", exist_ok=True)
+        os.makedirs(d + "/%s.conf.d" % name, exist_ok=True)
         if kind != "absent":
-            p = d + "/cfg.conf"
+            p = d + "/%s.conf" % name
             if kind == "devnull":
                 os.symlink("/dev/null", p)
             else:
@@ -87,7 +90,7 @@ def mk_tree(x, R, delim="=", badkind=0):
                 open(p, "w").write(data.replace("=", delim))
             paths[p] = (i, 0)
         for n in x["drop"][i - 1]:
-            p = d + "/cfg.conf.d/" + p_layers.NAMES[n]
+            p = d + "/%s.conf.d/" % name + p_layers.NAMES[n]
             data = p_layers.body(i, n, x["shp"][1])
             if bad == (i, n):
                 data = BADTEXT[badkind % len(BADTEXT)]
@@ -128,13 +131,14 @@ def check(pid, tier, seed):
         variant = i % 3
         delim = {0: "=", 1: ":", 2: " "}[variant]
         opts = {0: [], 1: ["--delimiters=:", "--comment=#"], 2: ["--delimiters=spaces"]}[variant]
-        paths = mk_tree(x, R, delim, badkind=i // 3)
+        name = CFGNAMES[(i // 3) % len(CFGNAMES)]
+        paths = mk_tree(x, R, delim, badkind=i // 3, name=name)
         out = {}
         for cmd in ("show", "syntax", "cat"):
-            out[cmd] = run_tool(tool, R, opts + [cmd, "cfg.conf"])
+            out[cmd] = run_tool(tool, R, opts + [cmd, name + ".conf"])
         # memory errors of the tool itself: the sanitized build on the same tree (exit status 97/98 = sanitizer)
         e = dict(os.environ, ECONFTOOL_ROOT=R, ASAN_OPTIONS="detect_leaks=0:exitcode=97", UBSAN_OPTIONS="halt_on_error=1:exitcode=98")
-        p = subprocess.run([asan_tool] + opts + ["show", "cfg.conf"], capture_output=True, env=e, timeout=60)
+        p = subprocess.run([asan_tool] + opts + ["show", name + ".conf"], capture_output=True, env=e, timeout=60)
         out["asan"] = (p.returncode, p.stderr.decode("latin-1")[-1500:])
         shutil.rmtree(R, ignore_errors=True)
         return i, out, paths, R
@@ -148,7 +152,7 @@ def check(pid, tier, seed):
         out, paths, R = results[i]
         t = {"main": x["main"], "drop": x["drop"], "shp": x["shp"], "bad": x["bad"]}
         fpb = "C19:%s" % ("malformed" if x["bad"] else p_layers.classify(t))
-        case = {"kind": "tooltree", "tree": t, "variant": i % 3}
+        case = {"kind": "tooltree", "tree": t, "variant": i % 3, "name": CFGNAMES[(i // 3) % len(CFGNAMES)]}
         want = want_set(x["show"]["triples"])
         if not x["bad"] and p_layers.f4_class(x):
             # known finding F4 (C01): the library keeps the first consulted drop-in although it is shadowed; the tool
@@ -215,7 +219,7 @@ def check(pid, tier, seed):
     rc = verdict.finish()
     cov = {"states": r.distinct, "transitions": r.generated, "traces_validated_against_impl": ok,
            "evaluations": len(recs) * 3, "distinct_nontrivial": nn,
-           "rule": "MC_Tool exports every two-layer tree (main x4 per layer x subsets of %s drop-in names per layer) x content shapes {both, group-less only, sections only, header-only section in the main file, drop-ins holding only comments} x {no malformed file, each consulted regular file malformed (missing bracket, text after the section, empty section name in turn)}; %d trees materialised under $ECONFTOOL_ROOT (/usr/etc, /etc) with delimiter '=', ':' (--delimiters) and blanks (--delimiters=spaces); the built econftool runs show, syntax, cat (stdbuf keeps stdout/stderr order); stdout parsed into (section, key, value lines) triples and compared as sets with Tool!ShowCmd / CatCmd, exit status with SyntaxCmd, error location = malformed file + line; plus single absolute files; the ASan/UBSan build of the tool runs show on every tree. non-trivial = result with group-less keys or >= 2 sections or a malformed file." % (names, len(recs)),
+           "rule": "MC_Tool exports every two-layer tree (main x4 per layer x subsets of %s drop-in names per layer) x content shapes {both, group-less only, sections only, header-only section in the main file, drop-ins holding only comments} x {no malformed file, each consulted regular file malformed (missing bracket, text after the section, empty section name in turn)}; %d trees materialised under $ECONFTOOL_ROOT (/usr/etc, /etc) under the configuration names cfg, org.example.app, a.b, x-1_y in turn, with delimiter '=', ':' (--delimiters) and blanks (--delimiters=spaces); the built econftool runs show, syntax, cat (stdbuf keeps stdout/stderr order); stdout parsed into (section, key, value lines) triples and compared as sets with Tool!ShowCmd / CatCmd, exit status with SyntaxCmd, error location = malformed file + line; plus single absolute files; the ASan/UBSan build of the tool runs show on every tree. non-trivial = result with group-less keys or >= 2 sections or a malformed file." % (names, len(recs)),
            "samples": [{"tree": p_layers.tree_text({"main": recs[5]["main"], "drop": recs[5]["drop"], "shp": recs[5]["shp"]}), "show": recs[5]["show"]}],
            "exhaustive": False, "trusted_base": ["TLC 1.8.0", "gcc (plain and ASan/UBSan builds of util/econftool.c + lib)", "coreutils stdbuf"]}
     core.write_evidence(pid, tier, seed, "model_checking", cov, ["the printed layout is not compared, only the parsed triples", "edit/revert are not part of the property"], time.time() - t0, len(verdict.violations))
